@@ -435,8 +435,15 @@ pub fn generate_c10(corpus: &[Project], seed: u64, index: u64, k: usize) -> Run 
             let mut chosen = files.clone();
             rng.shuffle(&mut chosen);
             chosen.truncate(rng.range(1, 2).min(files.len()));
+            // ... and, in one such variant of two, another file (not the entry point) did not exist yet while those
+            // revisions were compiled: it appears on disk afterwards, without a word to the session
+            let absent: Option<String> = if rng.chance(1, 2) { files.iter().filter(|f| **f != project.entry && !chosen.contains(f)).cloned().collect::<Vec<_>>().first().cloned() } else { None };
             for round in 0..2 {
-                earlier.push(chosen.iter().map(|f| (f.clone(), doc_rewrite(&fs[f], round))).collect());
+                let mut r: Vec<(String, String)> = chosen.iter().map(|f| (f.clone(), doc_rewrite(&fs[f], round))).collect();
+                if let Some(a) = &absent {
+                    r.push((a.clone(), crate::model::ABSENT_IN_EARLIER_REVISION.to_string()));
+                }
+                earlier.push(r);
             }
         }
         // (the entry points are called in the other order by variants 2, 8 and every fifth from 9 on - variant 4
